@@ -524,6 +524,16 @@ def c_cmd(L, raw, c):
     return None
 
 
+def _keysorted(v):
+    if isinstance(v, dict):
+        return {k: _keysorted(v[k]) for k in sorted(v)}
+    if isinstance(v, list):
+        return [_keysorted(x) for x in v]
+    if isinstance(v, tuple):
+        return tuple(_keysorted(x) for x in v)
+    return v
+
+
 def run_case(ctx, case):
     if case["mode"] == "layoutbuilder":
         ctx.cover("mode", "layoutbuilder")
@@ -630,9 +640,14 @@ def run_case(ctx, case):
     if case["mode"] == "append":
         expected = _fill(expected)
     if not model.same(v1, expected):
-        ctx.violation("wrong-value", {"expected": model.brief(expected, 500), "got": model.brief(v1, 500),
-                                      "type": b.typestr(s1)})
-        return
+        if case["mode"] == "append" and model.same(_keysorted(v1), _keysorted(expected)):
+            # an appended record with the fields of an earlier one in another order joins that record's builder: the
+            # values are the appended ones, only the order in which the fields are listed is the first record's
+            ctx.count("appended_record_field_order_differs_(not_asserted)")
+        else:
+            ctx.violation("wrong-value", {"expected": model.brief(expected, 500), "got": model.brief(v1, 500),
+                                          "type": b.typestr(s1)})
+            return
     if not model.same(v1, v2) or b.typestr(s1) != b.typestr(s2):
         ctx.violation("growth-dependent", {"grown": model.brief(v1, 300), "roomy": model.brief(v2, 300),
                                            "types": [b.typestr(s1), b.typestr(s2)]})
